@@ -105,7 +105,9 @@ CloseAndContinueAsUnion ==
     /\ cur' = <<>>
     /\ UNCHANGED <<phase, root, evars>>
 
-Tk(op, t, a, n, m) == [op |-> op, t |-> t, a |-> a, n |-> n, m |-> m]
+\* s: for "cnt" tasks the bound SHIFT (the wire carries length + s); 0 elsewhere
+TkS(op, t, a, n, m, sh) == [op |-> op, t |-> t, a |-> a, n |-> n, m |-> m, s |-> sh]
+Tk(op, t, a, n, m) == TkS(op, t, a, n, m, 0)
 ValTask(t) == Tk("val", t, 0, 0, 0)
 
 \* finish the struct and encode a message of it
@@ -170,14 +172,21 @@ SizerLimit(ms, j) ==
     LET L == {ms[q].n : q \in {q \in 1..Len(ms) : ms[q].f = "limx" /\ ms[q].c = j}} IN
     IF L = {} THEN 0 ELSE CHOOSE x \in L : \A y \in L : x <= y
 
+\* the shift of the arrays a sizer member counts (legal schemas: all the same)
+SizerShift(ms, j) ==
+    LET Sh == {ShiftOf(ms[q]) : q \in {q \in 1..Len(ms) : ms[q].f \in {"ext", "limx"} /\ ms[q].c = j}} IN
+    IF Sh = {} THEN 0 ELSE CHOOSE x \in Sh : TRUE
+
 PartTasks(ms, p) ==
     LET m == ms[p.j] IN
     CASE p.r = "val"    -> << ValTask(m.t) >>
-      [] p.r = "sizer"  -> << Tk("cnt", m.t, SizerLimit(ms, p.j), Base(env, m.t).w, p.j) >>
+      [] p.r = "sizer"  -> << TkS("cnt", m.t, SizerLimit(ms, p.j), Base(env, m.t).w, p.j, SizerShift(ms, p.j)) >>
       [] p.r = "opt"    -> << Tk("opt", m.t, p.a, 0, 0) >>
       [] p.r = "fixed"  -> Copies(m.n, ValTask(m.t))
-      [] p.r = "cnt"    -> << Tk("cnt", Int(4), m.n, 4, p.j) >>
-      [] p.r = "arr"    -> << Tk("arr", m.t, 0, m.n, IF m.f \in {"ext", "limx"} THEN m.c ELSE p.j) >>
+      \* own u32 counter: of a limited array (limit m.n) or of a dynamic array (shift m.n)
+      [] p.r = "cnt"    -> << TkS("cnt", Int(4), IF m.f = "lim" THEN m.n ELSE 0, 4, p.j, ShiftOf(m)) >>
+      [] p.r = "arr"    -> << Tk("arr", m.t, 0, IF m.f \in {"lim", "limx"} THEN m.n ELSE 0,
+                                 IF m.f \in {"ext", "limx"} THEN m.c ELSE p.j) >>
       [] p.r = "greedy" -> << Tk("gre", m.t, 0, 0, 0) >>
 
 RECURSIVE TasksFrom(_, _, _)
@@ -250,7 +259,7 @@ EncEnum(j) ==
 EncCounter(n) ==
     /\ phase = "enc" /\ todo # <<>> /\ Top.op = "cnt"
     /\ n \in 0..(IF Top.a > 0 THEN Min(Top.a, MaxLen) ELSE MaxLen)
-    /\ Emit(IntBytes(n, Top.n), "c")
+    /\ Emit(IntBytes(n + Top.s, Top.n), "c")
     /\ frames' = << [Head(frames) EXCEPT ![Top.m] = n] >> \o Tail(frames)
     /\ walk' = Append(walk, Ev("len", n, <<>>))
     /\ todo' = Rest
@@ -260,7 +269,7 @@ EncCounter(n) ==
 EncCounterAny(n) ==
     /\ phase = "enc" /\ todo # <<>> /\ Top.op = "cnt"
     /\ (Top.a > 0 => n <= Top.a)
-    /\ Emit(IntBytes(n, Top.n), "c")
+    /\ Emit(IntBytes(n + Top.s, Top.n), "c")
     /\ frames' = << [Head(frames) EXCEPT ![Top.m] = n] >> \o Tail(frames)
     /\ walk' = Append(walk, Ev("len", n, <<>>))
     /\ todo' = Rest
